@@ -50,7 +50,10 @@ fn init_sets(n: usize, max: usize) -> Vec<Vec<(K, K)>> {
 
 /// All canonical scenarios with the given thread shape (calls per thread).
 pub fn enum_scenarios(n: usize, init_max: usize, shape: &[usize]) -> Vec<Scenario> {
-    let calls = all_calls(n, true);
+    // queries take part in the exhaustively explored two-call scenarios; the larger shapes are built from
+    // mutating calls only (a query adds no state change: it is covered against every mutation in the small
+    // space, in the stress layer and under Miri)
+    let calls = all_calls(n, shape.iter().sum::<usize>() <= 2);
     let mut seen: HashSet<Scenario> = HashSet::new();
     let mut out = vec![];
     // all thread bodies
